@@ -239,8 +239,8 @@ func CheckC15(l *Lab, verifDir string) int {
 					m := append([]string(nil), segs...)
 					m[si] = seg[:pos] + string(ch) + seg[pos+1:]
 					want := 403
-					if nb, ok := b64uLenient(m[si]); ok && string(nb) == string(orig) && si != 0 {
-						want = 0 // decodes identically (the header text is authenticated as text)
+					if nb, ok := b64uLenient(m[si]); ok && string(nb) == string(orig) {
+						want = 0 // decodes identically (implementations authenticate the canonical re-encoding of the header)
 					}
 					probes = append(probes, probe{signed, "char-substitution", fmt.Sprintf("seg%d pos%d %c", si, pos, ch), "GET", "?access_token=" + url.QueryEscape(strings.Join(m, ".")), want, ""})
 				}
